@@ -14,7 +14,7 @@ ID = 'C03'
 LEVEL = 'exploration'
 RUNS = {'quick': 20000, 'thorough': 400000}
 CHUNK = 50
-PROBES = ['earlier_dump_other_parser_object', 'multi_chunk', 'empty_chunk', 'cut_inside_window', 'cut_inside_lookup', 'decoy_tag_in_stackshot', 'gap_before_event_tag',
+PROBES = ['partial_tag_prefix_before_tag', 'earlier_dump_other_parser_object', 'multi_chunk', 'empty_chunk', 'cut_inside_window', 'cut_inside_lookup', 'decoy_tag_in_stackshot', 'gap_before_event_tag',
           'header_plist_unaligned', 'two_kext_blocks', 'two_dyld_blocks', 'two_code_blocks', 'two_log_blocks', 'unpadded_last_block',
           'log_extends_tables', 'log_without_pid', 'strings_block_before_logs', 'xml_plists', 'no_blocks', 'unknown_block',
           'log_with_tai', 'cli_run']
@@ -118,6 +118,11 @@ def execute(scn):
         bump('probe:decoy_tag_in_stackshot')
     if any(g for g in w.get('gaps', [])):
         bump('probe:gap_before_event_tag')
+    from ..writer import STACKSHOT_END, TAG_THREADMAP, TAG_EVENTS
+    for fill, tag in [(f1, STACKSHOT_END), (bytes.fromhex(w.get('filler2', '')), TAG_THREADMAP)] + [(bytes.fromhex(g), TAG_EVENTS) for g in w.get('gaps', [])]:
+        if any(fill.endswith(tag[:k]) for k in range(1, len(tag))):
+            bump('probe:partial_tag_prefix_before_tag')
+            break
     hdr = next((e - s for n, s, e in layout if n == 'header'), 0)
     import plistlib
     if len(worlds.writer.plist_bytes(w.get('cpu_info') or {}, w.get('plist_fmt', 'binary'))) % 8:
